@@ -30,6 +30,12 @@ BadAnywhere == <<
   <<2, 0, 0, 2, 9, 9>>,          \* ServerHello, unsupported version: Tag
   <<1, 0, 0, 2, 3, 3>>,          \* ClientHello cut off by its declared length
   <<4, 0, 0, 3, 0, 0, 0>>,       \* NewSessionTicket shorter than 4
+  (* messages that END at a field boundary, a mandatory field missing (the declared length is consistent with what is there) *)
+  <<67, 0, 0, 3, 2, 104, 50>>,   \* NextProtocol: the selected protocol, no padding field
+  <<6, 0, 0, 2, 3, 4>>,          \* HelloRetryRequest: the version, no cipher suite
+  <<22, 0, 0, 1, 1>>,            \* CertificateStatus: the type, no response length
+  <<13, 0, 0, 2, 1, 1>>,         \* CertificateRequest: the certificate types, nothing else
+  <<2, 0, 0, 35, 3, 3>> \o Fill(5, 32) \o <<0>>,    \* ServerHello: up to the session id, no cipher suite
   (* 24-bit lengths whose low 16 bits alone would fit: the message reaches far beyond any record *)
   <<14, 1, 0, 0>>, <<20, 1, 0, 2, 170, 187>>, <<24, 128, 0, 1, 0>>, <<0, 255, 0, 0>>, <<11, 2, 0, 3, 0, 0, 0>> >>
 (* malformed only as the last thing in the payload (length reaches beyond it) *)
